@@ -381,7 +381,22 @@ class Interp:
                 return FuncVal([(r, False)], None, U(e))
             return Opaque(U(e))
         if isinstance(e, ast.Tuple) or isinstance(e, ast.List):
-            return Tup([self.eval(x, st, func, selfobj) for x in e.elts])
+            elts = [self.eval(x, st, func, selfobj) for x in e.elts]
+            multi = [i for i, x in enumerate(elts) if isinstance(x, MultiVal)]
+            if multi and len(multi) <= 2:
+                # a tuple with a case-split component is a case-split tuple
+                import itertools
+                vals, conds = [], []
+                for combo in itertools.product(*[range(len(elts[i].vals)) for i in multi]):
+                    cur = list(elts)
+                    cc = []
+                    for i, k in zip(multi, combo):
+                        cur[i] = elts[i].vals[k]
+                        cc.extend(elts[i].conds[k])
+                    vals.append(Tup(cur))
+                    conds.append(cc)
+                return MultiVal(vals, conds)
+            return Tup(elts)
         if isinstance(e, ast.UnaryOp):
             v = self.eval(e.operand, st, func, selfobj)
             if isinstance(e.op, ast.USub) and isinstance(v, Poly):
